@@ -33,7 +33,7 @@ def audit(patch):
                 out["fail"].append("%s[%s]: %s" % (u.name, ch, "; ".join("%s %s" % (f["property"], f["description"][:70]) for f in r.failed[:3])))
             elif r.status == "undecided":
                 out["undecided"].append("%s[%s]: %s" % (u.name, ch, r.reason[:160]))
-        for en, prop in (("tables", "C19"), ("tables", "C07"), ("tables", "C17"), ("tables", "C08"), ("tables", "C01"), ("statics", "C13"), ("calls", "C18")):
+        for en, prop in (("tables", "C19"), ("tables", "C07"), ("tables", "C17"), ("tables", "C08"), ("tables", "C01"), ("statics", "C13"), ("calls", "C18"), ("locals", "C16"), ("encwords", "C03")):
             for er in engines.run(en, prop, "quick", work):
                 if er["status"] == "fail" and not er["name"].startswith("T.short_prefix"):   # open known finding on the unchanged tree
                     out["engines_fail"].append("%s: %s" % (er["name"], er.get("detail", "")[:120]))
@@ -46,6 +46,12 @@ def audit(patch):
     return out
 
 if __name__ == "__main__":
-    for p in sys.argv[1:]:
+    outs = []
+    args = [a for a in sys.argv[1:] if not a.startswith("--out=")]
+    outp = [a[6:] for a in sys.argv[1:] if a.startswith("--out=")]
+    for p in args:
         o = audit(p)
+        outs.append(o)
         print(json.dumps(o, indent=1), flush=True)
+        if outp:
+            json.dump(outs, open(outp[0], "w"), indent=1)
